@@ -61,3 +61,23 @@ package conf
 //@   ensures [regexp-result-is-a-matching-configuration] wf() && !has(pathConfs, name) && result2 == nil ==> result0 != nil && rx(result0.Name) && pathConfs[result0.Name] == result0 && hit(result0) && result1 == reSubmatch(result0.Regexp, name)
 //@   ensures [no-matching-configuration-comes-before-it] wf() && !has(pathConfs, name) && result2 == nil ==> forall(n, string, rx(n) && hit(pathConfs[n]) && n != result0.Name ==> nameBefore(result0.Name, n))
 //@   ensures [rejected-only-when-nothing-matches] wf() && !has(pathConfs, name) && validName(name) && result2 != nil ==> forall(n, string, rx(n) ==> !hit(pathConfs[n]))
+
+// C10 (safety half): validating an arbitrary decoded configuration never indexes or slices outside its
+// strings and lists, never divides by zero and never asserts a wrong type.
+
+//@ func checkRedirect
+//@   property C10
+//@   safety -ovf
+
+//@ func checkSRTPassphrase
+//@   property C10
+//@   safety -ovf
+
+//@ func (pconf *Path) validate
+//@   property C10
+//@   safety -ovf
+//@   domain pconf != nil && conf != nil
+
+//@ func (conf *Conf) Validate
+//@   property C10
+//@   safety -ovf
